@@ -592,7 +592,7 @@ func (s *c46Sys) Key() string {
 		if p.ptr.revalList != nil {
 			st = "cur"
 		}
-		ps = append(ps, s.nm(id)+":"+st)
+		ps = append(ps, fmt.Sprintf("%s:%s:seq%d", s.nm(id), st, p.rec.Seq()))
 	}
 	sort.Strings(ps)
 	fmt.Fprintf(&sb, " pend%v ff[", ps)
@@ -1346,11 +1346,11 @@ func TestVerif_C46_scaled(t *testing.T) {
 			c46N("b1", 255, 1, S1+"4", S2+"4", "fiIQ"),
 		})
 		c46Explore(r, ip, mc.Pick(r, 4, 6))
-		c46Explore(r, reval, mc.Pick(r, 4, 6))
+		c46Explore(r, reval, mc.Pick(r, 4, 5))
 		// the same alphabets from deeper start states (reached by the named prefix, which is itself part of the
 		// exploration above): bucket A full with a replacement and subnet S1 at the table limit; bucket A with an
 		// entry of the other subnet and a replacement
-		c46Explore(r, ip.from("ip+4", "found-a1", "found-a2", "found-a4", "found-b1"), mc.Pick(r, 3, 5))
+		c46Explore(r, ip.from("ip+4", "found-a1", "found-a2", "found-a4", "found-b1"), mc.Pick(r, 3, 4))
 		c46Explore(r, reval.from("reval+3", "found-a3", "found-a1", "found-a2"), mc.Pick(r, 3, 5))
 	})
 }
